@@ -16,7 +16,7 @@ TRecovery ==
     /\ IsEvent("Recovery")
     /\ Ev.foldersLoad                       \* every folder lists without error
     /\ Ev.oldIntact                         \* every message stored before the interrupted operation is intact
-    /\ Ev.outXorSent                        \* an outbound message is in out xor sent (or, for an interrupted AddOut, absent)
+    /\ Ev.outXorSent                        \* an outbound message is still in out or sent (an interrupted AddOut of a new one may leave it absent)
     /\ Ev.rejectedImpliesComplete           \* "already received" only if a complete copy is in the inbox
     /\ ~Ev.panic
     /\ UNCHANGED fsvars /\ Consume
